@@ -3,6 +3,7 @@ import VProofs.Lemmas.MergeCorrect
 import VProofs.Lemmas.ScorePredict
 import VProofs.Lemmas.ScoreOverwrite
 import VProofs.Lemmas.ScoreLocal
+import VProofs.Lemmas.ScoreWindow0
 /-!
 # C01 — Boundary scores and decisions equal the pointwise linear model
 
@@ -229,5 +230,107 @@ example : (C01_exPredict {} true 7 C01_exSentence).bind (C01_exPredict {} false 
 example : ((C01_exPredict {} true 7 C01_exSentence).bind (C01_exPredict {} false 3)).map (·.cstates)
     = .ok [some 0, some 1, some 2] := by decide
 example : (C01_exPredict {} false 3 C01_exSentence).map (·.cstates) = .ok [] := by decide
+
+/-! ## window size 0: a kind of n-gram whose window is 0 is switched off
+
+`CharScorer::new` / `TypeScorer::new` ignore the n-grams of a kind whose window size is 0 (dictionary words and tag n-grams
+still count).  The theorems above require both windows to be at least 1; the ones below cover 0 as well. -/
+
+/-- `WFModel` with windows 0..255: the requirements on the n-grams of a kind apply only when that kind's window is at least 1
+(with window 0 the list is ignored by the predictor, so it is arbitrary); the dictionary requirements are unchanged -/
+structure WFModel0 (m : WModel) : Prop where
+  charW_le : m.charW ≤ 255
+  typeW_le : m.typeW ≤ 255
+  char_nodup : 1 ≤ m.charW → (m.charNgrams.map (·.ngram)).Nodup
+  char_shape : 1 ≤ m.charW → ∀ d ∈ m.charNgrams, 1 ≤ d.ngram.length ∧ d.ngram.length ≤ 2 * m.charW ∧
+    d.weights.length = 2 * m.charW - d.ngram.length + 1
+  type_nodup : 1 ≤ m.typeW → (m.typeNgrams.map (·.ngram)).Nodup
+  type_shape : 1 ≤ m.typeW → ∀ d ∈ m.typeNgrams, 1 ≤ d.ngram.length ∧ d.ngram.length ≤ 2 * m.typeW ∧
+    d.weights.length = 2 * m.typeW - d.ngram.length + 1 ∧ ∀ t ∈ d.ngram, 1 ≤ t ∧ t ≤ 6
+  dict_nodup : (m.dict.map (·.word)).Nodup
+  dict_shape : ∀ d ∈ m.dict, 1 ≤ d.word.length ∧ d.word.length ≤ 32767 ∧ d.weights.length = d.word.length + 1
+
+/-- the model with the n-grams of every switched-off kind (window 0) removed; everything else, the windows included, is kept -/
+def dropW0 (m : WModel) : WModel :=
+  { m with charNgrams := if m.charW = 0 then [] else m.charNgrams,
+           typeNgrams := if m.typeW = 0 then [] else m.typeNgrams }
+
+/-- `WFModel0` extends `WFModel` … -/
+theorem WFModel.toWFModel0 {m : WModel} (hm : WFModel m) : WFModel0 m :=
+  { charW_le := hm.charW_le, typeW_le := hm.typeW_le, char_nodup := fun _ => hm.char_nodup,
+    char_shape := fun _ => hm.char_shape, type_nodup := fun _ => hm.type_nodup, type_shape := fun _ => hm.type_shape,
+    dict_nodup := hm.dict_nodup, dict_shape := hm.dict_shape }
+
+/-- … and coincides with it when both windows are at least 1, where `dropW0` is the identity -/
+theorem WFModel0.toWFModel {m : WModel} (hm : WFModel0 m) (hc : 1 ≤ m.charW) (ht : 1 ≤ m.typeW) : WFModel m :=
+  { charW_pos := hc, charW_le := hm.charW_le, typeW_pos := ht, typeW_le := hm.typeW_le, char_nodup := hm.char_nodup hc,
+    char_shape := hm.char_shape hc, type_nodup := hm.type_nodup ht, type_shape := hm.type_shape ht,
+    dict_nodup := hm.dict_nodup, dict_shape := hm.dict_shape }
+
+theorem dropW0_of_pos (m : WModel) (hc : 1 ≤ m.charW) (ht : 1 ≤ m.typeW) : dropW0 m = m := by
+  unfold dropW0
+  rw [if_neg (by omega), if_neg (by omega)]
+
+/-- `dropW0` is also the identity on models that have no n-grams of a switched-off kind (e.g. the models training returns) -/
+theorem dropW0_of_empty (m : WModel) (hc : m.charW = 0 → m.charNgrams = []) (ht : m.typeW = 0 → m.typeNgrams = []) :
+    dropW0 m = m := by
+  have h1 : (if m.charW = 0 then [] else m.charNgrams) = m.charNgrams := by
+    split
+    · rename_i h; exact (hc h).symm
+    · rfl
+  have h2 : (if m.typeW = 0 then [] else m.typeNgrams) = m.typeNgrams := by
+    split
+    · rename_i h; exact (ht h).symm
+    · rfl
+  unfold dropW0
+  rw [h1, h2]
+
+/-- **main theorem, windows 0..255**: as `C01_scores`, for every model that is well-formed up to the n-grams of switched-off
+kinds; the specification is the pointwise linear model of `dropW0 m`, i.e. the n-grams of a kind with window 0 contribute
+nothing, whatever they are, while the dictionary and the other kind count as before (with or without tag prediction) -/
+theorem C01_scores_window0 (cfg : Cfg) (m : WModel) (hm : WFModel0 m) (pt : Bool) (p : Predictor)
+    (hp : Predictor.new cfg m pt = .ok p) (s : Sentence) (hs : SentOK s) (pid : Nat) :
+    ∃ s', p.predict pid s = .ok s' ∧
+      s'.boundaryScores = .ok (specScores (dropW0 m) s.text) ∧
+      s'.bounds = specBounds (dropW0 m) s.text ∧
+      s'.text = s.text ∧ s'.types = s.types ∧ s'.tags = s.tags ∧ s'.nTags = s.nTags ∧ s'.pred = some pid :=
+  C01L.predict_correct0 cfg m hm.char_shape hm.type_shape (fun d hd => (hm.dict_shape d hd).1) pt p hp s hs.text_ne
+    hs.types_eq hs.bounds_len pid
+
+/-! ### non-vacuity: character window 0 with (ill-shaped, repeated) character n-grams that must be ignored, a type n-gram,
+a dictionary word and a tag model with character and type tag n-grams -/
+
+def C01_exModel0 : WModel :=
+  { charNgrams := [⟨['a'], [1000, -2000, 5]⟩, ⟨[], []⟩, ⟨['a'], [7]⟩], typeNgrams := [⟨[2], [3, 4]⟩, ⟨[2, 2], [-1]⟩],
+    dict := [⟨['a', 'b'], [1, 2, 3], []⟩], bias := -8, charW := 0, typeW := 1,
+    tagModels := [{ token := ['a'], tags := [[['x'], ['y']]], charNgrams := [⟨['b', 'a'], [⟨0, [1, 2]⟩]⟩],
+                    typeNgrams := [⟨[2], [⟨1, [0, 1]⟩]⟩], bias := [0, 0] }] }
+
+example : WFModel0 C01_exModel0 :=
+  { charW_le := by decide, typeW_le := by decide, char_nodup := by decide, char_shape := by decide,
+    type_nodup := by decide, type_shape := by decide, dict_nodup := by decide, dict_shape := by decide }
+
+/-- it is not a `WFModel`, and its character n-grams are indeed dropped -/
+example : ¬ WFModel C01_exModel0 := fun h => absurd h.charW_pos (by decide)
+example : (dropW0 C01_exModel0).charNgrams = [] ∧ (dropW0 C01_exModel0).typeNgrams = C01_exModel0.typeNgrams ∧
+    (dropW0 C01_exModel0).dict = C01_exModel0.dict := by decide
+
+def C01_exPredict0 (cfg : Cfg) (pt : Bool) (pid : Nat) (s : Sentence) : Res Sentence :=
+  match Predictor.new cfg C01_exModel0 pt with
+  | .ok p => p.predict pid s
+  | .err e => .err e
+  | .panic x => .panic x
+  | .ub x => .ub x
+
+/-- the predictor is built in the three configurations (fixed layout + cache, variable layout without cache, tag-aware
+scorers), and on `aba` it reports the numbers of the specification: bias −8, type n-grams `[2]` (3 + 4 at either boundary)
+and `[2, 2]` (−1 at either boundary), dictionary word `ab` (2 inside, 3 at its right end); a score of 0 is not a boundary -/
+example : specScores (dropW0 C01_exModel0) C01_exSentence.text = [0, 1] := by decide
+example : specBounds (dropW0 C01_exModel0) C01_exSentence.text = [B.N, B.W] := by decide
+example : (C01_exPredict0 {} false 7 C01_exSentence).bind (·.boundaryScores) = .ok [0, 1] := by decide
+example : (C01_exPredict0 { fixed := false, cache := false, tagPred := false } false 7 C01_exSentence).bind
+    (·.boundaryScores) = .ok [0, 1] := by decide
+example : (C01_exPredict0 {} true 7 C01_exSentence).bind (·.boundaryScores) = .ok [0, 1] := by decide
+example : (C01_exPredict0 {} true 7 C01_exSentence).map (·.bounds) = .ok [B.N, B.W] := by decide
 
 end V
